@@ -8,7 +8,7 @@ from pyvc.api import spec, implies
 TN = ('name', 'namespaces', 'instantiations', 'SEQ')
 
 
-@spec(rec=True, ret='bool', reads=TN)
+@spec(rec=True, ret='bool', reads='tree')
 def wf_tn(t):
     """a Typename whose to_cpp() is defined: a Typename stored in .name (after template substitution)
     only occurs on a name without template arguments of its own"""
@@ -16,27 +16,27 @@ def wf_tn(t):
             and forall(0, len(t.instantiations), lambda j: wf_tn(t.instantiations[j])))
 
 
-@spec(rec=True, ret='bool', reads=TN)
+@spec(rec=True, ret='bool', reads='tree')
 def wf_tn_plain(t):
     """a Typename as the parser produces it: every name is a string"""
     return isinstance(t.name, str) and forall(0, len(t.instantiations), lambda j: wf_tn_plain(t.instantiations[j]))
 
 
-@spec(rec=True, ret='str', reads=TN)
+@spec(rec=True, ret='str', reads='tree')
 def tn_cpp(t):
     return ('::'.join(t.namespaces) + ('::' if len(t.namespaces) > 0 else '')
             + (t.name if isinstance(t.name, str) else tn_cpp(t.name))
             + (('<' + ', '.join([tn_cpp(i) for i in t.instantiations]) + '>') if len(t.instantiations) > 0 else ''))
 
 
-@spec(rec=True, ret='str', reads=TN)
+@spec(rec=True, ret='str', reads='tree')
 def tn_iname_fold(insts, k):
     if k <= 0:
         return ''
     return tn_iname_fold(insts, k - 1) + tn_iname(insts[k - 1])
 
 
-@spec(rec=True, ret='str', reads=TN)
+@spec(rec=True, ret='str', reads='tree')
 def tn_iname(t):
     return t.name + tn_iname_fold(t.instantiations, len(t.instantiations))
 
@@ -48,7 +48,7 @@ def tn_qualified(t):
 NSR = ('parent', 'name')
 
 
-@spec(rec=True, ret='seq:str', reads=NSR)
+@spec(rec=True, ret='seq:str', reads='tree')
 def ns_chain(a):
     """names of a and its named ancestors, outermost first; a is '' (no parent) or a node"""
     if isinstance(a, str):
@@ -68,7 +68,7 @@ def q_cpp(x, t):
             + (('std::shared_ptr<' + x + '>') if t.is_shared_ptr else ((x + '*') if t.is_ptr else ((x + '&') if t.is_ref else x))))
 
 
-@spec(rec=True, ret='bool', reads=TY)
+@spec(rec=True, ret='bool', reads='tree')
 def wf_ty(t):
     if isinstance(t, TemplatedType):
         return (isinstance(t.typename.name, str)
@@ -76,7 +76,7 @@ def wf_ty(t):
     return wf_tn(t.typename)
 
 
-@spec(rec=True, ret='str', reads=TY)
+@spec(rec=True, ret='str', reads='tree')
 def ty_cpp(t):
     if isinstance(t, TemplatedType):
         return q_cpp(tn_qualified(t.typename) + '<' + ', '.join([ty_cpp(p) for p in t.template_params]) + '>', t)
@@ -109,7 +109,7 @@ def ic_cpp(c):
             + (c.original.name + '<' + ', '.join([tn_cpp(i) for i in c.instantiations]) + '>' if c.original.template else c.original.name))
 
 
-@spec(rec=True, ret='str', reads=TN)
+@spec(rec=True, ret='str', reads='tree')
 def iname_suffix(insts, k):
     """instantiated names of insts[:k], each with its first character capitalised (the rest untouched)"""
     if k <= 0:
@@ -122,3 +122,9 @@ def idecl_cpp(d):
     """C++ spelling of an instantiated forward declaration: ns::Name<qualified args>"""
     return ('::'.join(ns_chain(d.parent)) + ('::' if len(ns_chain(d.parent)) > 0 else '')
             + d.original.name + '<' + ','.join(['::'.join(i.namespaces + [i.name]) for i in d.instantiations]) + '>')
+
+
+@spec()
+def enum_cpp(e):
+    """C++ spelling of an enum under its collected namespaces"""
+    return '::'.join(ns_chain(e.parent)) + ('::' if len(ns_chain(e.parent)) > 0 else '') + e.name
